@@ -273,3 +273,78 @@ func enclosingLoop(body ast.Node, inner ast.Node) ast.Node {
 	})
 	return out
 }
+
+// assignedBefore returns the expression assigned to obj by the nearest statement that precedes target in
+// its own statement list or, failing that, in an enclosing one (structural order: inlined bodies keep the
+// source positions of the helper they came from, so positions do not order them).
+func assignedBefore(info *types.Info, body ast.Node, target ast.Stmt, obj types.Object) ast.Expr {
+	// stack of (list, index) from the outermost list down to the one holding target
+	type frame struct {
+		list []ast.Stmt
+		idx  int
+	}
+	var stack, found []frame
+	var walk func(list []ast.Stmt) bool
+	lists := func(s ast.Stmt) [][]ast.Stmt {
+		switch x := s.(type) {
+		case *ast.BlockStmt:
+			return [][]ast.Stmt{x.List}
+		case *ast.IfStmt:
+			out := [][]ast.Stmt{x.Body.List}
+			if x.Else != nil {
+				out = append(out, []ast.Stmt{x.Else})
+			}
+			return out
+		case *ast.ForStmt:
+			return [][]ast.Stmt{x.Body.List}
+		case *ast.RangeStmt:
+			return [][]ast.Stmt{x.Body.List}
+		case *ast.SwitchStmt:
+			return [][]ast.Stmt{x.Body.List}
+		case *ast.TypeSwitchStmt:
+			return [][]ast.Stmt{x.Body.List}
+		case *ast.SelectStmt:
+			return [][]ast.Stmt{x.Body.List}
+		case *ast.CaseClause:
+			return [][]ast.Stmt{x.Body}
+		case *ast.CommClause:
+			return [][]ast.Stmt{x.Body}
+		case *ast.LabeledStmt:
+			return [][]ast.Stmt{{x.Stmt}}
+		}
+		return nil
+	}
+	walk = func(list []ast.Stmt) bool {
+		for i, s := range list {
+			stack = append(stack, frame{list, i})
+			if s == target {
+				found = append([]frame(nil), stack...)
+				return true
+			}
+			for _, sub := range lists(s) {
+				if walk(sub) {
+					return true
+				}
+			}
+			stack = stack[:len(stack)-1]
+		}
+		return false
+	}
+	b, ok := body.(*ast.BlockStmt)
+	if !ok || !walk(b.List) {
+		return nil
+	}
+	for level := len(found) - 1; level >= 0; level-- {
+		f := found[level]
+		for i := f.idx - 1; i >= 0; i-- {
+			if as, ok := f.list[i].(*ast.AssignStmt); ok && len(as.Lhs) == len(as.Rhs) {
+				for j, l := range as.Lhs {
+					if astx.ObjOf(info, l) == obj {
+						return as.Rhs[j]
+					}
+				}
+			}
+		}
+	}
+	return nil
+}
